@@ -818,6 +818,13 @@ def r04h(model, ctx):
     need(n >= 2, f"only {n} statement containers (classes with assign/switch/emit) found in back/rtlil.py")
 
 
-RULES = [("R-04h", r04h), ("R-04g", r04g), ("R-04a", r04a), ("R-04b", r04b), ("R-04c", r04c), ("R-04d", r04d), ("R-04e", r04e), ("R-04f", r04f),
+
+def r07h_shared(model, ctx):
+    """RTLIL emission details shared with C07 (R-07h): enum_value names, always-enabled I/O buffers, attributes of anonymous wires"""
+    from . import c07
+    c07.r07h(model, ctx)
+
+
+RULES = [("R-07h", r07h_shared), ("R-04h", r04h), ("R-04g", r04g), ("R-04a", r04a), ("R-04b", r04b), ("R-04c", r04c), ("R-04d", r04d), ("R-04e", r04e), ("R-04f", r04f),
          ("R-02c", _only_ir(c02.r02c, _is_ir)), ("R-02d", _only_ir(c02.r02d, _is_ir)),
          ("R-02e", _only_ir(c02.r02e, _is_ir)), ("R-02a", _only_ir(c02.r02a, _is_ir))]
